@@ -313,8 +313,22 @@ def m_drop(ex, callee, args):
 
 @model(r'^<.* as (Into|From)<.*>>::(into|from)$')
 def m_into(ex, callee, args):
-    # identity conversions (String -> String, error sources, &str -> String)
     v = args[0]
+    m = re.match(r'^<(\w+) as From<(\w+)>>::from$', callee) or None
+    dst = src = None
+    if m:
+        dst, src = m.group(1), m.group(2)
+    else:
+        m = re.match(r'^<(\w+) as Into<(\w+)>>::into$', callee)
+        if m:
+            src, dst = m.group(1), m.group(2)
+    if dst in INT_TYPES and isinstance(v, (BV, bool, z3.BoolRef)):
+        return ex.do_cast(v, dst, 'IntToInt')
+    if dst == 'f64' and isinstance(v, BV):
+        return ex.do_cast(v, 'f64', 'IntToFloat')
+    if dst == 'f64' and isinstance(v, FP):
+        return ex.do_cast(v, 'f64', 'FloatToFloat')
+    # identity conversions (String -> String, error sources, &str -> String)
     return v
 
 
